@@ -71,7 +71,7 @@ def gen_lattice(max_bound, two_var_bound):
                     if pair:
                         script[f'0:{k + 1}'] = pair
                 for min_iter in (0, max_iter):
-                    for check in (None, ['A'], ['B']):
+                    for check in (None, ['A'], ['B'], []):        # ([]: a model without convergence-check variables)
                         yield {'nvars': 2, 'n': 2, 't': 0, 'script': script, 'check': check,
                                'opts': {'min_iter': min_iter, 'max_iter': max_iter, 'tol': tol, 'failures': 'ignore'}}
         # offsets at every position
@@ -82,7 +82,7 @@ def gen_lattice(max_bound, two_var_bound):
                         T = t + n if t < 0 else t
                         script = {f'{T}:{k + 1}': [['A', TOKS(0.5)[i]]] for k, i in enumerate(seq) if i}
                         # (the copy concerns every endogenous variable, whichever of them are convergence-check variables)
-                        for check in (None, ['A'], ['B']):
+                        for check in (None, ['A'], ['B'], []):
                             case = {'nvars': 2, 'n': n, 't': t, 'script': script,
                                     'init': {'A': [10.0 * (i + 1) for i in range(n)], 'B': [0.5 * i for i in range(n)],
                                              'X': [7.0 + i for i in range(n)]},
@@ -90,6 +90,14 @@ def gen_lattice(max_bound, two_var_bound):
                             if check is not None:
                                 case['check'] = check
                             yield case
+        # no check variables at all: the first pass that may be judged converges, whatever moves
+        for max_iter in range(0, 4):
+            for min_iter in range(0, max_iter + 2):
+                for failures in ('raise', 'ignore'):
+                    for moves in (0, 1, 3):
+                        script = {f'1:{k + 1}': [['A', ['move', 1.0]]] for k in range(moves)}
+                        yield {'nvars': 1, 'n': 3, 't': 1 if (min_iter + moves) % 2 else -2, 'check': [], 'script': script,
+                               'opts': {'min_iter': min_iter, 'max_iter': max_iter, 'tol': 0.5, 'failures': failures}}
         # long runs: the variable moves for j passes and then stands still (iteration counts beyond the exhaustive bound)
         for j in (5, 9, 10, 11, 17, 30):
             script = {f'1:{k + 1}': [['A', ['move', 1.0]]] for k in range(j)}
